@@ -590,6 +590,40 @@ def kernel_fold_check(seed=0, n=12):
                                      f"{two[k]!r} vs step∘step {comp[k]!r}")
         out.append(dict(function=nm + ' (two-increment trace = step∘step)', samples=n, paths=len(paths2),
                         nodes=len(ctx2.nodes), max_rel_err=worst))
+
+        # the same one-step map at a non-zero buffer offset: state in row 1 under an unrelated row 0
+        gnames = [f'g{k}' for k in range(15)]
+
+        def fn3():
+            V = lambda name: Sym.var(name)
+            A = lambda x: sym._obj(x)
+            E = sym.np_proxy.empty
+            lla, vel, mat = E((3, 3)), E((3, 3)), E((3, 3, 3))
+            lla[0] = A([V('g0'), V('g1'), V('g2')])
+            vel[0] = A([V('g3'), V('g4'), V('g5')])
+            mat[0] = A([[V(f'g{6 + 3 * i + j}') for j in range(3)] for i in range(3)])
+            lla[1] = A([V('lat'), V('lon'), V('alt')])
+            vel[1] = A([V('VN'), V('VE'), V('VD')])
+            mat[1] = A([[V(f'C{i}{j}') for j in range(3)] for i in range(3)])
+            _pyf(ni.integrate)(A([V('dt')]), lla, vel, mat, A([[V('th0'), V('th1'), V('th2')]]),
+                               A([[V('dv0'), V('dv1'), V('dv2')]]), 1, with_alt)
+            return _kernel_outs(lla, vel, mat, row=2)
+        with patched(ALL_MODS, KEXTRA):
+            ctx3, paths3 = sym.enumerate_paths(fn3)
+        worst3 = 0.0
+        for _ in range(n):
+            env = {p: rng.uniform(*r) for p, r in KPARAMS}
+            genv = {g: rng.uniform(-50, 50) for g in gnames}
+            off = sym.eval_paths(ctx3, paths3, dict(env, **genv), tab)
+            one = sym.eval_paths(ctx1, paths1, env, tab)
+            for k in one:
+                err = abs(one[k] - off[k]) / max(1.0, abs(one[k]))
+                worst3 = max(worst3, err)
+                if not err <= 1e-12:
+                    raise TraceError(f"kernel step at buffer offset 1 differs from the step at offset 0 "
+                                     f"({nm}.{k}: {off[k]!r} vs {one[k]!r}): a row other than j is read")
+        out.append(dict(function=nm + ' (step at buffer offset 1 = step at offset 0)', samples=n,
+                        paths=len(paths3), nodes=len(ctx3.nodes), max_rel_err=worst3))
     return out
 
 
